@@ -1398,7 +1398,7 @@ theorem create_then_link_is_startChild (s : State) (c fid p k : Nat) (pf : Flow)
 example : (unlisted initState 5 && (5 : Nat) != 0 && ((freshFlow 0).status.listening || false)) = true := by decide
 
 /-- every refined CoreVM step (`Refine.RefinedStep`: outermost `abortFlow` / `finishFlow`; the `EndScope`, `BeginScope`,
-    `start_new_flow_instance`-label, other-label, `send` and effect-free elements of `slideStep`; `StopFlow` / `FinishFlow` processing in all forms
+    `start_new_flow_instance`-label, other-label, `send`, `goto`, `assign` and effect-free elements of `slideStep`; `StopFlow` / `FinishFlow` processing in all forms
     (`flow_instance_uid=…`, `flow_id=…` with the loop over `flow_id_states`); non-creating `StartFlow` processing; `setFlowStatus`
     along the status order; `updateActionStatusByEvent` for an admissible action event; the `_new_action_instance` element of
     `slideStep`; `addNewFlowInstance`; `startFlow`) IS a sequence of operations of the Lifetime machine (`abort`, `finish`,
